@@ -36,7 +36,8 @@ RULE = ("recordings: widths {1,2,4} x rates {8, 10, 100, 8000, 44100} x 0..400 s
         "extractSubwav on temp files (QueryWav path) cross-checked with Wav.open(...).getSubwav (in-memory path). "
         "splitAudioOnTier on temp wav + multi-tier TextGrids (split tier of 1..12 entries on and off the grid, at the edges, "
         "touching; an interval tier, a point tier and an empty tier beside it, with and without entries under each interval) x "
-        "nameStyle {None, append, append_no_i, label} x noPartialIntervals x outputTGFlag {False, True, tier name} x silenceLabel. "
+        "nameStyle {None, append, append_no_i, label} x noPartialIntervals x outputTGFlag {False, True, tier name} x silenceLabel x wav file "
+        "names (plain, with a dot, a blank, a per cent sign). "
         "non-trivial = the recording has samples and the call addresses at least one interval / writes at least one file")
 TRUSTED = ["oracle: the property evaluated on Fractions and on the decoded sample list (harness/props/C17.py:oracle); bytes are "
            "decoded with int.from_bytes(..., 'little', signed=True), independently of struct",
@@ -222,6 +223,8 @@ def has_model(c):
         es = split_entries(c)
         if not all(time_ok(e[0], c["rate"]) and time_ok(e[1], c["rate"]) for e in es):
             return False
+        if "%" in c["stem"] and c["style"] in (None, "append"):
+            return False                          # the name template is a %-format string (finding C17-5): oracle only
         names = [out_name(c, i, e[2], len(es)) for i, e in enumerate(es)]
         if len(set(names)) != len(names):         # overwritten files: oracle only
             return False
@@ -684,7 +687,7 @@ def oracle_split(c, r):
         return Failure(dict(sig, clause="no-error", exc=r[1]), f"harness-level error {r[1]}")
     v = r[1]
     if v["err"] is not None:
-        cause = "no-entries" if not es else "other"
+        cause = "no-entries" if not es else ("percent-in-file-name" if "%" in c["stem"] and c["style"] in (None, "append") else "other")
         return Failure(dict(sig, clause="no-error", exc=v["err"], cause=cause),
                        f"splitAudioOnTier raised {v['err']} ({len(es)} entries, nameStyle={c['style']}, outputTGFlag={c['tgflag']})")
     if [x[:2] for x in v["ret"]] != [[float(e[0]), float(e[1])] for e in es]:
@@ -901,6 +904,9 @@ def corpus():
     yield split_case(1, 8, 40, [], others)                                           # C17-4: no entry
     yield split_case(1, 8, 40, words[:1], others, silence="a")                       # C17-4: only silence
     yield split_case(1, 8, 40, [[i * 0.5, i * 0.5 + 0.5, f"l{i}"] for i in range(10)], [], style="append")
+    yield split_case(1, 8, 40, words[:2], others, stem="my%20file")                  # C17-5: '%' in the wav's file name
+    yield split_case(1, 8, 40, words[:2], others, stem="100%", style="append")       # C17-5
+    yield split_case(1, 8, 40, words[:2], others, stem="my%20file", style="label", tgflag=True)
 
 
 # ------------------------------------------------------------------------------------------------
@@ -1115,7 +1121,7 @@ def gen_split(rnd):
     c["nopartial"] = rnd.random() < 0.5
     c["tgflag"] = rnd.choice([False, True, True, "phones", "words"])
     c["silence"] = None if rnd.random() < 0.8 else rnd.choice([wd[2] for wd in words] + ["sil"])
-    c["stem"] = rnd.choice(["rec", "bobby_words", "a.b", "r 1"])
+    c["stem"] = rnd.choice(["rec", "bobby_words", "a.b", "r 1"]) if rnd.random() < 0.96 else rnd.choice(["my%20file", "100%"])
     c["fmt"] = rnd.choice(["short_textgrid", "long_textgrid"])
     c["mkdir"] = rnd.random() < 0.8
     if rnd.random() < 0.03:
